@@ -157,11 +157,14 @@ func checkC06(c *Ctx) {
 			hs = append(hs, h)
 		}
 		jobs = append(jobs, Job{S: lsScenario(root.Uint64(), "ul", hs), Rig: "ls", Judge: "ls", Tag: "c06-history"})
+		if len(jobs) >= 48 || i+per >= nHist { // in chunks: a thorough run's histories do not fit in memory all at once
+			c.Batch(jobs, func(j Job, r *Run, fs []Finding) {
+				c.Evals += per - 1
+				lsProbes(c, r, "wraps256", "wraps24", "ops")
+			})
+			jobs = nil
+		}
 	}
-	c.Batch(jobs, func(j Job, r *Run, fs []Finding) {
-		c.Evals += per - 1
-		lsProbes(c, r, "wraps256", "wraps24", "ops")
-	})
 	// exhaustive counter sweep (+ walk)
 	s := lsScenario(root.Uint64(), "count", nil)
 	s.Rig["no_shrink"] = true
@@ -317,6 +320,11 @@ func checkC10(c *Ctx) {
 	root := kernel.New(c.Seed).Sub("c10")
 	var jobs []Job
 	sigs := map[string]bool{}
+	nLook := 6
+	if c.Tier == "thorough" {
+		nLook = 120
+	}
+	c10obs := c10Observer(c, per, func() int { return nLook })
 	for i := 0; i < nHist; i += per {
 		var hs []interface{}
 		for k := 0; k < per; k++ {
@@ -325,12 +333,12 @@ func checkC10(c *Ctx) {
 			hs = append(hs, h)
 		}
 		jobs = append(jobs, Job{S: lsScenario(root.Uint64(), "dl", hs), Rig: "ls", Judge: "ls", Tag: "c10-history"})
+		if len(jobs) >= 48 {
+			c.Batch(jobs, c10obs)
+			jobs = nil
+		}
 	}
 	// histories whose first ciphertext looks like a plain message (searched keys)
-	nLook := 6
-	if c.Tier == "thorough" {
-		nLook = 120
-	}
 	var lh []interface{}
 	rl := root.Sub("lookalike")
 	for k := 0; k < nLook; k++ {
@@ -342,9 +350,14 @@ func checkC10(c *Ctx) {
 		lh = append(lh, h)
 	}
 	jobs = append(jobs, Job{S: lsScenario(root.Uint64(), "dl", lh), Rig: "ls", Judge: "ls", Tag: "c10-lookalike"})
-	c.Batch(jobs, func(j Job, r *Run, fs []Finding) {
+	c.Batch(jobs, c10obs)
+	c.sigs = sigs
+}
+
+func c10Observer(c *Ctx, per int, nLook func() int) func(j Job, r *Run, fs []Finding) {
+	return func(j Job, r *Run, fs []Finding) {
 		if j.Tag == "c10-lookalike" {
-			c.Evals += nLook - 1
+			c.Evals += nLook() - 1
 		} else {
 			c.Evals += per - 1
 		}
@@ -363,8 +376,7 @@ func checkC10(c *Ctx) {
 				}
 			}
 		}
-	})
-	c.sigs = sigs
+	}
 }
 
 // ---------- C15 ----------
@@ -514,11 +526,14 @@ func checkC15(c *Ctx) {
 			}
 		}
 		jobs = append(jobs, Job{S: lsScenario(root.Uint64(), "aka", hs), Rig: "ls", Judge: "ls", Tag: "c15-history"})
+		if len(jobs) >= 48 || i+per >= nHist {
+			c.Batch(jobs, func(j Job, r *Run, fs []Finding) {
+				c.Evals += per - 1
+				lsProbes(c, r, "accepted", "resyncs", "rejected")
+			})
+			jobs = nil
+		}
 	}
-	c.Batch(jobs, func(j Job, r *Run, fs []Finding) {
-		c.Evals += per - 1
-		lsProbes(c, r, "accepted", "resyncs", "rejected")
-	})
 	c.sigs = sigs
 }
 
